@@ -597,6 +597,18 @@ func replies(rng *rand.Rand, thorough bool) []*In {
 		}
 		out = append(out, in)
 	}
+	// a late reply to ONE message of a split synchronization (an I/O stall; the connection
+	// stays alive): the stub has collected that chunk, the runtime's call times out. The
+	// runtime must give up - re-sending would deliver objects twice.
+	for _, st := range []struct {
+		pods, ctrs [][2]int
+		at         int
+	}{{run1(2, tiny), run1(40, 200_000), 1}, {run1(5, kb), run1(30, 300_000), 2}, {run1(40, kb), run1(25, 300_000), 1},
+		{run1(3, tiny), run1(60, 150_000), 3}, {run1(2, tiny), run1(3, kb), 1}} {
+		in := mk("reply", fmt.Sprintf("reply to message %d comes after the request timeout", st.at), st.pods, st.ctrs)
+		in.StallAt, in.ReqTimeoutMs = st.at, 700
+		out = append(out, in)
+	}
 	// a handler that answers with the status ResourceExhausted: recalcObjsPerSyncMsg reports it
 	// with the very text of a refused request
 	for _, st := range [][2][][2]int{{run1(2, tiny), run1(3, kb)}, {run1(5, kb), run1(30, 300_000)},
